@@ -5,6 +5,7 @@ package main
 
 import (
 	"fmt"
+	"strings"
 
 	"github.com/6tail/lunar-go/calendar"
 )
@@ -133,6 +134,24 @@ func runC16(w *W) {
 			ns.GetLuckInQiMen() != calendar.LUCK_QI_MEN[i] || ns.GetLuckInXuanKong() != calendar.LUCK_XUAN_KONG[i] || ns.GetYinYangInQiMen() != calendar.YIN_YANG_QI_MEN[i] || ns.GetTypeInTaiYi() != calendar.TYPE_TAI_YI[i] ||
 			ns.GetBaMenInQiMen() != calendar.BA_MEN_QI_MEN[i] || ns.GetSongInTaiYi() != calendar.SONG_TAI_YI[i] {
 			w.Viol(fmt.Sprintf("C16:naming:%d", i), "naming getters do not all index the same star", i)
+		}
+	}
+	// the naming systems against the classical Luoshu correspondences (written here from the literature, not read
+	// from the library): number, colour, element, palace and Big-Dipper name of stars one..nine; and each Tai Yi verse
+	// mentions the Tai Yi name of its own star
+	{
+		num := []string{"一", "二", "三", "四", "五", "六", "七", "八", "九"}
+		col := []string{"白", "黑", "碧", "绿", "黄", "白", "赤", "白", "紫"}
+		wx := []string{"水", "土", "木", "木", "土", "金", "金", "土", "火"}
+		pos := []string{"坎", "坤", "震", "巽", "中", "乾", "兑", "艮", "离"}
+		dou := []string{"天枢", "天璇", "天玑", "天权", "玉衡", "开阳", "摇光", "洞明", "隐元"}
+		for i := 0; i < 9; i++ {
+			ns := calendar.NewNineStar(i)
+			if ns.GetNumber() != num[i] || ns.GetColor() != col[i] || ns.GetWuXing() != wx[i] || ns.GetPosition() != pos[i] || ns.GetNameInBeiDou() != dou[i] ||
+				!strings.Contains(ns.GetSongInTaiYi(), ns.GetNameInTaiYi()) || ns.String() != num[i]+col[i]+wx[i]+dou[i] {
+				w.Viol(fmt.Sprintf("C16:naming:classical:%d", i), fmt.Sprintf("star %d is named %s / %s / %s / %s / %s (prints %s), Tai Yi %s with verse %q; the classical correspondences are %s%s%s, palace %s, %s, and the verse names its own star",
+					i+1, ns.GetNumber(), ns.GetColor(), ns.GetWuXing(), ns.GetPosition(), ns.GetNameInBeiDou(), ns.String(), ns.GetNameInTaiYi(), clip(ns.GetSongInTaiYi()), num[i], col[i], wx[i], pos[i], dou[i]), i)
+			}
 		}
 	}
 	// month and year *objects*: the star of a lunar-month object is that of its (year, month) however the object
